@@ -575,7 +575,8 @@ pub fn run(cfg: &Cfg) {
         let res = rt.block_on(async { tokio::time::timeout(Duration::from_secs(60), run_case(case_addr, &certs, &t)).await });
         let (imp, mon) = match res {
             Err(_) => { dead = true; ("TIMEOUT".to_string(), Err("C11/C17: the exchange did not complete within 60 s".to_string())) }
-            Ok(Err(e)) => (format!("ERROR {}", format!("{e:?}").replace('\n', " ").chars().take(160).collect::<String>()), Err(format!("{e}"))),
+            Ok(Err(e)) => (format!("ERROR {}", format!("{e:?}").replace('\n', " ").chars().take(160).collect::<String>()),
+                           Err(if t[1].starts_with("stall") || t[1] == "mute" { format!("C11/C17: with one topic stalled the server can no longer be talked to at all: {e}") } else { format!("{e}") })),
             Ok(Ok(line)) => {
                 let mut m = Ok(());
                 let probe_ok = line.split(' ').filter(|x| x.contains('=') && ["probe", "queued-peer", "blocked-publisher", "other-names", "queued-peer-later"].contains(&x.split('=').next().unwrap())).all(|x| x.ends_with("=ok"));
